@@ -1,5 +1,7 @@
 import SamVerif.Lemmas.Scope
 import SamVerif.Lemmas.ScopeSig
+import SamVerif.Lemmas.ScopeOrder
+import SamVerif.Lemmas.ScopeWrap
 /-!
 # C13 — Type inference is stable under meaning-preserving rewrites of the source
 
@@ -92,6 +94,80 @@ example : (analyze 0 sample).useDef = [(13, 7), (12, 11), (8, 5)] := by decide
 example : (analyze 0 sample).lambdaCaps = [(10, [(2, 7)])] := by decide
 example : (analyze 0 sample).unbound = [9] := by decide
 example : (analyze (0 + 50) (sample.map (· + 50))).unbound = [59] := by decide
+
+/-! ### reordering classes / interfaces: the scope analysis itself (not only the signature map) -/
+
+/-- **The scope machine observes its hash maps only through lookups**: two states whose scopes have
+the same content (in any internal order) stay so under every event sequence, with identical
+use→definition map, diagnostics, invalid set, unbound names. -/
+theorem machine_observes_lookups (evs : List (Ev α)) (st1 st2 : St α) (h : StEq st1 st2) :
+    StEq (run evs st1) (run evs st2) :=
+  run_eq evs st1 st2 h
+
+/-- **`toplevel_order_invariant`** (hoisting, `ssa_analysis.rs:90-100`): permuting the toplevels of
+a module whose imported and toplevel names are pairwise distinct yields a hoisted context with the
+same content, and therefore *every* continuation — the analysis of every class body — produces the
+same lookups, use→definition entries, diagnostics and capture tables. -/
+theorem toplevel_order_invariant (m m' : Module α) (hi : m'.imports = m.imports)
+    (hp : m.toplevels.Perm m'.toplevels) (hnd : (names (hoistDefs m)).Nodup) (evs : List (Ev α)) :
+    StEq (run evs (run (hoistEvs m) init)) (run evs (run (hoistEvs m') init)) :=
+  run_eq evs _ _ (hoist_eq m m' hi hp hnd)
+
+/-- **every toplevel block is analysed in exactly the hoisted context** whichever (and however
+many) blocks were analysed before it: a block opens and closes its scopes and leaves the context
+untouched (`visit_module` = hoisting ++ blocks, `visitModule_split`). Together with
+`toplevel_order_invariant`: the position of a class in the file influences neither the context in
+which its body is resolved nor any lookup in it; only the order in which the per-class results
+are appended to the result tables differs. -/
+theorem toplevel_block_context (this : α) (m : Module α) (ts : List (Toplevel α))
+    (hnd : (names (hoistDefs m)).Nodup) :
+    (run (hoistEvs m ++ ts.flatMap (visitToplevel this)) init).locals
+      = (run (hoistEvs m) init).locals := by
+  rw [run_append]
+  have hh := run_hoist (hoistDefs m) [] (init : St α) rfl (by simpa [names] using hnd)
+  have hl : (run (hoistEvs m) (init : St α)).locals
+      = [(hoistDefs m).foldl (fun a d => insertKV d.1 d.2 a) []] := by
+    rw [hoistEvs, hh]
+  have hw : WF (run (hoistEvs m) (init : St α)) := by
+    rw [hoistEvs, hh]; simp [WF, init]
+  rw [(blocks_restore this ts _ _ [] hl hw).1, hl]
+
+/-- **every traversal fragment is scope-neutral**: running the events of any expression / pattern /
+annotation tree between two scope depths never touches the enclosing scopes. -/
+theorem visit_scope_neutral (n : Node α) (a : Nat) : Bal a a (visit n) := visit_bal n a
+
+/-- **block wrapping, "nothing leaks out"**: wrapping any tree in a block (`{ e }`: push, visit,
+pop) restores the surrounding context exactly — whatever `e` binds stays inside. -/
+theorem block_wrap_no_leak (e : Node α) (loc : Nat) (st : St α) (s : Scope α) (rest : List (Scope α))
+    (h : st.locals = s :: rest) (hw : WF st) :
+    (run (visit (.mk .block none loc [e])) st).locals = st.locals := by
+  have : visit (.mk .block none loc [e]) = [.push] ++ visit e ++ [.pop .scoped loc] := by
+    simp [visit, visitList]
+  rw [this, h]
+  exact (scope_restores (visit_bal e 0) .scoped loc st s rest h hw).1
+
+/-- **block wrapping, "resolution of the inside is unchanged"**: let `e` be a tree that binds
+nothing at its own top level and is scope-balanced (`closedAt 0`, `endDepth 0 … = 0`: decidable; true
+of expressions, false of patterns / declarations).  Then analysing `{ e }` instead of `e`, from any
+state, yields the same context, the same use→definition map, invalid set, definitions,
+diagnostics, unbound names and lambda-capture tables; the only difference is the (empty) binding
+table recorded for the new block. -/
+theorem block_wrap_resolution (e : Node α) (loc : Nat) (hc : closedAt 0 (visit e) = true)
+    (he : endDepth 0 (visit e) = 0) (st : St α) (hw : WF st) :
+    let r := run (visit e) st
+    let r' := run (visit (.mk .block none loc [e])) st
+    r'.locals = r.locals ∧ r'.captured = r.captured ∧ r'.useDef = r.useDef ∧ r'.invalid = r.invalid ∧
+    r'.defLocs = r.defLocs ∧ r'.errors = r.errors ∧ r'.unbound = r.unbound ∧
+    r'.lambdaCaps = r.lambdaCaps ∧ r'.scopedDefs = insertKV loc [] r.scopedDefs := by
+  have : visit (.mk .block none loc [e]) = [.push] ++ visit e ++ [.pop .scoped loc] := by
+    simp [visit, visitList]
+  simp only [this]
+  exact wrap_sim (visit e) hc he loc st hw
+
+/-- non-vacuity: the body of `sampleMember` (a block with a `let`, a capturing lambda, uses) is closed -/
+example : closedAt 0 (visit sampleBody) = true ∧ endDepth 0 (visit sampleBody) = 0 := by decide
+/-- …whereas a bare pattern is not (it binds at its own level) -/
+example : closedAt 0 (visit (.mk .pId (some 2) 7 [] : Node Nat)) = false := by decide
 
 end SamVerif.Scope
 
